@@ -421,8 +421,11 @@ def oracle_paths(np, post, case):
     c3 = dict(case)
     ax, ta = case["axis"] % 2, case["time_axis"] % 2
     c3["time_axis"] = ta
-    b = make_obj(post, c3).apply(x[:, :, None], axis=ax, in_place=False)
-    if b.shape[2] != 1 or not np.array_equal(a, b[:, :, 0]):
+    try:
+        b = make_obj(post, c3).apply(x[:, :, None], axis=ax, in_place=False)
+    except Exception as e:  # noqa: BLE001
+        return "2-D path returns a result, N-D path on the same data raises %s" % type(e).__name__
+    if b.ndim != 3 or b.shape[2] != 1 or not np.array_equal(a, b[:, :, 0]):
         return "2-D path and N-D path differ"
     return None
 
@@ -553,12 +556,16 @@ def run(ctx):
         msgs = search_one(np, post, c, res)
         if msgs:
             impl_bad.append((i, msgs))
-    impl_bad.sort(key=lambda t: (prod(cases[t[0]]["shape"]) + 1) * len(cases[t[0]]["shape"]))
+    def size_key(i):
+        n = prod(cases[i]["shape"])
+        return (n == 0, (n + 1) * len(cases[i]["shape"]))
+
+    impl_bad.sort(key=lambda t: size_key(t[0]))
     for i, msgs in impl_bad[:8]:
         ctx.fail("property violated on the implementation: %s; input %r" % ("; ".join(msgs), brief(cases[i])),
                  dict(input=cases[i], observed=results[i], messages=msgs), kind="impl")
     reported = {i for i, _ in impl_bad}
-    mism = sorted(set(mism), key=lambda i: (prod(cases[i]["shape"]) + 1) * len(cases[i]["shape"]))
+    mism = sorted(set(mism), key=size_key)
     for i in mism[:8]:
         if i in reported:
             continue
